@@ -127,4 +127,13 @@ PROPS.update({
         explanation="theorems: too_short_iff, never_panics, spare_independent, suffix_independent (corollaries of C07's thirteen theorems, which quantify over every spare capacity), all_decoders"),
 })
 
+PROPS.update({
+    "C19": dict(driver="driverblehandle", lake_targets=["driverblehandle"], tools=["extract", "ble2lean", "harness"], gen=["tables", "ble"],
+        suites=["c19"], trivial=r"^ignored$",
+        rule="the real handler (reached through an overlay export, BlueZ not needed; its log output parsed for plaintext and decoded record / error) on payload lengths 0..64 x contents, valid solar-charger advertisements (records of 0..16 bytes encrypted under 16/24/32-byte keys, random nonces), key lengths 0..40 and nil, a stride of the 65536 nonces (all in thorough), all 256 record types, multi-block payloads; PKCS7Padding for lengths 0..48 x 7 block sizes; MAC matching for well-formed, lower/upper case, malformed, odd, empty addresses against several configurations. The Go oracle decrypts independently with crypto/aes + cipher.NewCTR and decodes with the (C07-verified) solar decoder",
+        trusted_base=[KERNEL, HARNESS, T1, T2, "tools/overlay/ble/zz_verif_export.go (runs handleNewManufacturerData / getDeviceConfig on a BleStruct without BlueZ and captures the log)", "Victron/Model/Aes.lean (executable AES-128/192/256, FIPS-197 vectors + every logged plaintext compared) — validated, not verified; in the theorems the block cipher is a parameter", "crypto/aes, cipher.NewCTR (Go)"],
+        assumptions=["ble.New, BlueZ discovery and the goroutines are not modelled (they need a daemon)", "an address is mapped to bytes by removing colons and hex-decoding, as the code does; colon placement is not checked"],
+        explanation="theorems: pkcs7_shape, keystream_prefix, ctr_prefix (padding cannot alter record bytes), ctr_length, ctr_involutive, handle_short_ignored, handle_bad_key, handle_decrypts (plaintext = CTR decryption of the unpadded bytes 8.., type 0x01 dispatched to the solar decoder on that plaintext), handle_total (never panics, via C08), match_iff, match_malformed, match_sound"),
+})
+
 NOT_APPLICABLE = {}
